@@ -38,7 +38,7 @@ def key_of(i):
 
 
 def result_value(case, i):
-    v = ('r', i)
+    v = None if i in case.get('none_at', []) else ('r', i)
     if case.get('with_key'):
         return (key_of(i), v)
     return v
@@ -68,6 +68,7 @@ def run_case(case, trace_lines=True):
         chooser = detsched.chooser_preemptions(sch['points'])
     sched = detsched.Scheduler(chooser, trace_files=[pu.__file__] if trace_lines else [])
     raised = {}
+    none_at = set(case.get('none_at', []))
 
     def mkexc(name, where, i):
         e = progs.exc_class(name)(where, i)
@@ -95,7 +96,7 @@ def run_case(case, trace_lines=True):
             sched.event('end', i)
             raise mkexc(fn_fail[i], 'fn', i)
         sched.event('end', i)
-        return ('r', i)
+        return None if i in none_at else ('r', i)
 
     def fn(x):
         return work(x[1])
@@ -136,6 +137,8 @@ def run_case(case, trace_lines=True):
                 ds = ds.prefetch(w, b, catch_filter_exception=True if catch is True else progs.exc_spec(catch))
         else:
             ds = ds.map(pull_fn).map(fn, num_workers=w, buffer_size=b, backend='t')
+        if case.get('copy'):
+            ds = ds.copy()  # a copy must behave like the original (all parameters preserved)
         try:
             tr.len_reported = len(ds)
         except TypeError:
@@ -145,7 +148,13 @@ def run_case(case, trace_lines=True):
         return ds
 
     def main():
-        it = iter(make_iterable())
+        try:
+            it = iter(make_iterable())
+        except AssertionError as e:
+            if case['buffer'] < max(1, case['workers']):
+                tr.construct_error = e  # an invalid buffer size was rejected: nothing to schedule
+                return
+            raise
         k = stop['k']
         try:
             while True:
@@ -209,6 +218,8 @@ def describe(tr):
 
 def judge_termination(tr):
     """C05 (a)-(c): no deadlock, background threads finished and no user code once control is back."""
+    if tr.construct_error is not None:
+        return
     if tr.outcome == 'deadlock':
         raise Violation(f'deadlock|{tr.case["kind"]}', f'{describe(tr)}\n{tr.sched.deadlock}')
     if tr.outcome == 'steplimit':
@@ -238,6 +249,8 @@ def judge_cancel(tr):
 def judge_values(tr, check_len=True):
     """C04 / C06: delivered == sequential prefix, then the same exception (identity), never a silent stop."""
     c = tr.case
+    if tr.construct_error is not None:
+        return
     want, fail_pos, ename, _ = expected_of(c)
     stop = c.get('stop', {'kind': 'exhaust', 'k': 0})
     if stop['kind'] != 'exhaust':
@@ -290,7 +303,9 @@ def readahead_profile(tr):
 def judge_readahead(tr):
     """C07: at every event pulled - handed <= buffer + 2; on pool paths started - handed <= buffer."""
     c = tr.case
-    b = c['buffer']
+    b = max(c['buffer'], 0)
+    if tr.construct_error is not None:
+        return
     pulled = started = handed = 0
     for clock, _, kind, p in tr.log:
         if kind == 'pull':
@@ -359,6 +374,12 @@ def st_case(draw, profile):
         elif keyed:
             case['src'] = 'dict'
     case['yields'] = draw(st.lists(st.integers(0, 3), min_size=n, max_size=n)) if n <= 8 else []
+    if n and draw(st.integers(0, 3)) == 0:
+        case['none_at'] = draw(st.lists(st.integers(0, n - 1), min_size=1, max_size=2, unique=True))
+    if kind in ('pf', 'pm') and draw(st.integers(0, 3)) == 0:
+        case['copy'] = True
+    if profile == 'readahead' and kind == 'pf' and w == 1 and draw(st.integers(0, 9)) == 0:
+        case['buffer'] = 0  # must be rejected (or, if accepted, still obey the bound)
     if n >= 2 and draw(st.integers(0, 3)) > 0:
         # one slow task (many internal yield points): what makes later tasks finish before earlier ones
         case['slow'] = [draw(st.integers(0, n - 2)), draw(st.integers(8, 40))]
